@@ -331,6 +331,27 @@ def _weights(rng, n):
     return w
 
 
+def _narrow(rng, w):
+    """the same kind of weights as a catalogue stores them: float32 / float16 / integer / bool columns (each value is
+    exact; the definitions are evaluated on those values).  Returns w itself when no narrow form is usable."""
+    if rng.random() >= .25 or w.ndim != 1 or not (w.max() > 0):
+        return w
+    t = str(rng.choice(["f4", "f4", "f2", "i4", "u1", "u2", "bool"]))
+    if t == "f4":
+        c = w.astype("f4") if rng.random() < .5 else (w / w.max() * float(rng.choice([1.0, 1e20, 1e-20]))).astype("f4")
+    elif t == "f2":
+        c = (w / w.max() * float(rng.choice([1.0, 100.0, 6e4]))).astype("f2")     # totals beyond 65504 included
+    elif t == "bool":
+        c = w >= np.median(w)
+    else:
+        c = np.rint(w / w.max() * (250 if t == "u1" else 40000)).astype(t)
+    cf = c.astype("f8")
+    if not np.isfinite(cf).all() or not (cf.sum() > 0) or (cf > 0).sum() < min(2, w.size):
+        return w
+    COL.info["narrow_weight_inputs"] = COL.info.get("narrow_weight_inputs", 0) + 1
+    return c
+
+
 def _weights0(rng, n):
     mode = int(rng.integers(0, 4))
     if mode == 0:
@@ -392,6 +413,7 @@ def run_case(case):
         kw = {"calcerr": bool(rng.integers(0, 2)), "sdev": bool(rng.integers(0, 2))}
         if rng.random() < .3:
             kw["inputmean"] = float(rng.normal())
+        w = _narrow(rng, w)
         COL.sample({"family": fam, "n": n, "kw": kw, "x": x[:5].tolist(), "w": w[:5].tolist()})
         probe.attempt(st.wmom, gen.maybe_view(rng, x), gen.maybe_view(rng, w), **kw)
     elif fam == "wmom-nd":
@@ -399,7 +421,7 @@ def run_case(case):
         x = rng.normal(size=(n, d)) * 10.0 ** rng.integers(-2, 3)
         if rng.random() < .3:
             x[:, int(rng.integers(0, d))] += float(rng.choice([58849.0, 2458849.5, 1.6e9]))
-        w = _weights(rng, n) if rng.random() < .5 else np.abs(rng.normal(size=(n, d))) + 0.01
+        w = _narrow(rng, _weights(rng, n)) if rng.random() < .5 else np.abs(rng.normal(size=(n, d))) + 0.01
         kw = {"calcerr": bool(rng.integers(0, 2)), "sdev": bool(rng.integers(0, 2))}
         r = rng.random()
         if r < .15:
@@ -515,6 +537,7 @@ def run_case(case):
             w = _weights(rng, x.size)
             if w.sum() == 0:
                 w[:] = 1
+            w = _narrow(rng, w)
             kw = {}
             if rng.random() < .5:
                 kw["calcerr"] = bool(rng.integers(0, 2))
